@@ -32,6 +32,7 @@ type c18Case struct {
 	fail    bool
 	stale   int    // 0: no README.md before the run, 1: a short old one, 2: an old one longer than any rendering
 	scale   string // non-empty: a case of the scale family (not produced by the explorer's driver)
+	links   int    // 1: every sample is a symbolic link to a regular file, 2: the list file is one, 3: README.md exists as one
 }
 
 var c18Titles = []string{" Title", "", " Several words here", "  Double", " "}
@@ -142,6 +143,15 @@ func c18SpecialCases() []*c18Case {
 	for ni, n := range names {
 		mk([]c18Entry{{name: n, title: " Named", content: c18Contents[0]}}, fmt.Sprintf("special name=%d with title", ni))
 		mk([]c18Entry{{name: n, title: "", content: c18Contents[0]}}, fmt.Sprintf("special name=%d without title", ni))
+	}
+	// the files reached through symbolic links (after seed C18k: a "regular files only" guard using Lstat): the same
+	// rendering as with plain files
+	for links := 1; links <= 3; links++ {
+		before := len(out)
+		mk([]c18Entry{{name: "s0.fo", title: " Plain", content: c18Contents[0]}, {name: "s1.fo", title: "", content: c18Contents[3]}}, fmt.Sprintf("symbolic links kind %d", links))
+		for _, cs := range out[before:] {
+			cs.links = links
+		}
 	}
 	return out
 }
@@ -393,14 +403,31 @@ func c18RunOne(c *core.Ctx, sc *impl.Scratch, bsm, header string, exact bool, cs
 	dir := sc.TempDir("c18_")
 	defer os.RemoveAll(dir)
 	files := map[string]string{"list.txt": cs.list}
-	os.WriteFile(filepath.Join(dir, "list.txt"), []byte(cs.list), 0o644)
+	if cs.links == 2 {
+		os.WriteFile(filepath.Join(dir, "the_real_list.txt"), []byte(cs.list), 0o644)
+		os.Symlink("the_real_list.txt", filepath.Join(dir, "list.txt"))
+	} else {
+		os.WriteFile(filepath.Join(dir, "list.txt"), []byte(cs.list), 0o644)
+	}
 	var present []c18Entry
 	for _, e := range cs.entries {
 		if !e.missing {
-			os.WriteFile(filepath.Join(dir, e.name), []byte(e.content), 0o644)
+			if cs.links == 1 {
+				os.WriteFile(filepath.Join(dir, "real_"+e.name), []byte(e.content), 0o644)
+				os.Symlink("real_"+e.name, filepath.Join(dir, e.name))
+			} else {
+				os.WriteFile(filepath.Join(dir, e.name), []byte(e.content), 0o644)
+			}
 			files[e.name] = e.content
 		}
 		present = append(present, e)
+	}
+	if cs.links == 3 {
+		os.WriteFile(filepath.Join(dir, "readme_target.md"), []byte("old\n"), 0o644)
+		os.Symlink("readme_target.md", filepath.Join(dir, "README.md"))
+	}
+	if cs.links != 0 {
+		files["(symbolic links)"] = []string{"", "every sample is a link to real_<name>", "list.txt is a link", "README.md exists as a link to a regular file"}[cs.links]
 	}
 	staleText := ""
 	switch cs.stale {
